@@ -5,7 +5,7 @@
 # (quick tier unless TIER is set) and prints which ones report a violation. The scratch copies live
 # under /tmp/gmrs_scratch*; remove them with `tools/run_seeded.sh --clean`.
 set -u
-SR=/tmp/gmrs_scratch_repo; SV=/tmp/gmrs_scratch_verif
+T="${SCRATCH_TAG:-}"; SR=/tmp/gmrs_scratch_repo$T; SV=/tmp/gmrs_scratch_verif$T
 if [ "${1:-}" = "--clean" ]; then
   git -C /repo worktree remove --force $SR 2>/dev/null; rm -rf $SR $SV; git -C /repo worktree prune; exit 0
 fi
@@ -21,7 +21,7 @@ CHECKS="${*:-$(python3 -c "import json;print(' '.join(c['property_id'] for c in 
 cd $SV
 for c in $CHECKS; do
   out=$(./check $c "${TIER:-quick}" 2>&1); rc=$?
-  echo "$out" > /tmp/gmrs_scratch_last_$c.log
+  echo "$out" > /tmp/gmrs_scratch_last${T}_$c.log
   nv=$(echo "$out" | grep -c '^VIOLATION')
   first=$(echo "$out" | grep -m1 'oracle=' | sed 's/step-count.*re-executions)://' | cut -c1-220)
   [ -z "$first" ] && first=$(echo "$out" | grep -m1 '^VIOLATION' | cut -c1-200)
